@@ -93,6 +93,8 @@ def spec_table(spec, n, nvdim, dtype):
         a = np.rint(a).astype(np.int64)
     elif dtype == "complex":
         a = a.astype(np.complex128) * (1 + 0.5j)
+    elif dtype == "bool":
+        a = np.rint(a) % 3 != 0  # handed over as Booleans (C02 states no cast; cf. the int case)
     return a
 
 
@@ -100,7 +102,7 @@ def eval_spec(st, spec, meshm, nvdim, dtype):
     """Model: the specification evaluated at the model's own cell centres."""
     t = spec["t"]
     n = meshm.n
-    npdt = {"int": np.int64, "float": np.float64, "complex": np.complex128, None: np.float64}[dtype]
+    npdt = {"int": np.int64, "float": np.float64, "complex": np.complex128, "bool": np.bool_, None: np.float64}[dtype]
     if t == "const":
         v = dec(spec["v"])
         a = np.empty((*n, nvdim), dtype=npdt if dtype else np.result_type(np.float64, np.asarray(v).dtype))
@@ -227,12 +229,14 @@ def op_construct(st, o):
     fns = []
     kw = dict(nvdim=nvdim, value=lib_spec(st, spec, mm, nvdim, dtype, fns))
     if dtype:
-        kw["dtype"] = {"int": np.int64, "float": np.float64, "complex": np.complex128}[dtype]
+        kw["dtype"] = {"int": np.int64, "float": np.float64, "complex": np.complex128, "bool": bool}[dtype]
     if o.get("vdims") is not None:
         kw["vdims"] = list(o["vdims"])
     if o.get("unit") is not None:
         kw["unit"] = o["unit"]
     want = eval_spec(st, spec, mm, nvdim, dtype)
+    if o.get("norm") is not None and not np.all(np.isfinite(want)):
+        o = dict(o, norm=None)  # no norm for NaN cells
     if o.get("norm") is not None:
         kw["norm"] = lib_spec(st, o["norm"], mm, 1, None, fns)
         want = norm_model(want, eval_spec(st, o["norm"], mm, 1, None))
@@ -268,7 +272,7 @@ def op_update(st, o):
     spec = o["spec"]
     if spec["t"] == "field" and (not field_covers(st, spec, mm, dtype) or st.h[spec["src"]].fm.nvdim != nvdim or spec["src"] == o["on"]):
         return "skipped"
-    if spec["t"] == "dict" and (any(k != "default" and k not in dict(mm.subs) for k in spec["d"]) or dtype not in (None, "float")):
+    if spec["t"] == "dict" and any(k != "default" and k not in dict(mm.subs) for k in spec["d"]):
         return "skipped"
     if spec["t"] == "array" and spec.get("squeeze") and nvdim != 1:
         return "skipped"
@@ -315,7 +319,7 @@ def op_faulty(st, o):
     nvdim = o.get("nvdim", 1) if construct else h.fm.nvdim
     dtype = None if construct else h.meta.get("dtype")
     spec = o["spec"]
-    if not construct and dtype not in (None, "float") and spec["t"] in ("fn", "dict"):
+    if not construct and dtype not in (None, "float") and spec["t"] == "fn":
         return "skipped"
     if spec["t"] == "field" and spec.get("wrong_nvdim"):
         src = st.h.get(spec["src"])
@@ -381,10 +385,18 @@ def norm_model(arr, target):
 @op("F.setnorm")
 def op_setnorm(st, o):
     h = st.h[o["on"]]
-    if h.kind != "F" or h.meta.get("dtype") in ("int",):
+    if h.kind != "F" or h.meta.get("dtype") in ("int", "bool"):
         return "skipped"
+    if not np.all(np.isfinite(h.fm.array)):
+        return "skipped"  # NaN / inf cells have no length to rescale (outside C15's range)
     mm = h.box.v
     spec = o["spec"]
+    if spec["t"] == "field":
+        # a scalar field on a covering mesh is a function of position like any other
+        src = st.h.get(spec["src"])
+        if src is None or src.kind != "F" or spec["src"] == o["on"] or src.fm.nvdim != 1 or not field_covers(st, spec, mm) or np.any(src.fm.array < 0) or not np.all(np.isfinite(src.fm.array)):
+            return "skipped"
+        st.stats.probe("norm_from_field" + ("_other_mesh" if src.box is not h.box else ""))
     fns = []
     val = lib_spec(st, spec, mm, 1, None, fns)
     target = eval_spec(st, spec, mm, 1, None)
@@ -1157,6 +1169,29 @@ def op_diff(st, o):
     new_field(st, o["out"], obj, box, {"valid": h.fm.valid.copy(), "nvdim": h.fm.nvdim})
     st.stats.oracle("value")
     return "diff"
+
+
+@op("D.vcalc")
+def op_vcalc(st, o):
+    """grad / div / curl / laplace: compositions of the derivatives (and of << and +), so the
+    result carries the operand's validity (C08: derivatives, and all compositions)."""
+    h = st.h[o["on"]]
+    if h.kind != "F" or h.fm.array.dtype.kind == "c":
+        return "skipped"
+    f = o["f"]
+    res = sut(lambda: getattr(h.obj, f))
+    if res.raised:
+        # wrong component count / missing mapping / too few cells: C05 territory, no validity clause
+        st.stats.hit("observed/derive_raised:" + f)
+        return "derive-raised"
+    obj = res.v
+    if not isinstance(obj, st.df.Field) or tuple(obj.mesh.n) != tuple(h.box.v.n):
+        return "not-a-field"
+    box = result_box(st, obj, h, h.box.v)
+    new_field(st, o["out"], obj, box, {"valid": h.fm.valid.copy(), "nvdim": int(obj.nvdim)})
+    st.stats.oracle("value")
+    st.stats.probe("vcalc")
+    return f
 
 
 @op("D.sel")
